@@ -272,6 +272,29 @@ def done_fn():
               members=[(r'^size\|.*std::vector', 'nv_vec_size'), (r'^size\|.*(indices_t|tensor_vector_storage_t, long, 1|tensor_base_t<long, 1)', 'nv_indices_size')])
 
 
+# ------------------------------------------------------------------------------------------------ history lemma (induction)
+HISTORY = '''
+int main(void)
+{
+  struct nv_tensor2d initial; double epsilon; uint64_t patience;
+  nv_thrown = 0;
+  nv_history_lemma(initial, epsilon, patience);
+  __CPROVER_assert(0, "nv_canary: end of harness reachable");
+  return 0;
+}
+'''
+
+
+def history_targets():
+    """the history lemma: the real constructor and accessors are executed, the real done() is used through the contract that the
+    target early_stopping_done proves (same macro NV_CONTRACT_early_stopping_done); the harness loop has a loop contract (loops=1)"""
+    def fns():
+        f = fit_fns()
+        return [done_fn(), f['ector'], f['eround'], f['evalue'], f['evalues']]
+    return [Target('monitor_history', fns, 'specs/C11/history_lemma.h', enforce_none=True, harness=HISTORY, replace=['early_stopping_done'], loops=1,
+                   note='induction over histories of arbitrary length: loop contract of the harness loop')]
+
+
 def c10_predict_targets():
     import importlib.util
     path = os.path.join(os.path.dirname(os.path.abspath(__file__)), '..', 'C10', 'spec.py')
@@ -285,11 +308,14 @@ def build(tier):
     targets = [Target('early_stopping_done', [done_fn()], 'specs/C11/early_stopping.h')]
     targets += boost_targets()
     targets += fit_targets(done_fn(), [f() for f in boost_fns()])
+    targets += history_targets()
     targets += average_targets()
     targets += util_targets() + store_targets() + merge_targets()
     # "prediction is bias plus the SUM of the weak learners' predictions": every weak learner ADDS its tables to the outputs
     # row (never overwrites): the do_predict contracts of specs/C10 are run here as well, by reference (same spec objects)
     targets += c10_predict_targets()
+    import linear_spec
+    targets += linear_spec.targets()
     return {
         'targets': targets, 'vcs': [],
         'decided': ['early-stopping monitor transition = specification, for every observation and prior state; constructor (round 0, value +max, given snapshot) and round() / value() / values() accessors',
@@ -298,19 +324,43 @@ def build(tier):
                     'every update(round + 1, ..) writes the row of the learner count after the append, inside m_statistics; the early-exit learner (scaling failed) is appended without consulting the monitor and is never kept; '
                     'result.done(optimum.round()) is called inside its precondition, so the returned fold model keeps exactly optimum.round() learners (before merging) and optimum.round() + 1 statistics rows; '
                     'the returned per-sample values are the monitor snapshot (the values of the reported round) selected by the training resp. validation samples',
+                    'HISTORY LEMMA (monitor_history; induction = loop contract of a harness loop, histories of ARBITRARY length up to 2^62 observations): the real constructor, then one observation per round '
+                    '(round k with k learners; training error, validation error, with / without validation samples and the per-sample values arbitrary in every round) through the real done() used by the contract '
+                    'proved for it (same macro NV_CONTRACT_early_stopping_done): after EVERY observation the monitor has stopped iff the training error is below epsilon or no improvement larger than epsilon was accepted '
+                    'in the last `patience` rounds (summary form: rounds since the last accepted improvement >= patience; window form at a ghost round: none of the rounds k - patience + 1 .. k was accepted, and '
+                    'conversely a continuing monitor accepted one in that window or the start is that recent); round() / value() / values() (real accessors) are the round, validation error and per-sample values '
+                    'of the LAST accepted improvement (no later observation was accepted; the initial state counts as accepted at round 0 with value +max and the constructor snapshot)',
+                    '::fit feeds the monitor exactly such a history (k-th consultation with k learners, on the training / validation lists given to fit, configured epsilon / patience, values evaluated anew for every '
+                    'observation, never after a stop) and the SAME ghost summaries (history.h) are maintained inside the ::fit target: the returned fold model keeps exactly as many learners as the round of the last '
+                    'accepted improvement of the history this call fed (no later observation was accepted, that round\'s own observation was), the returned per-sample values are the ones observed in that round, '
+                    'and the monitor\'s last answer is the statement\'s verdict',
                     '::selected(values, samples): row k of the result is row k of values gathered by samples, shape (2, #samples)',
                     'gboost_model_t::fit fold averaging: bias = zero + bias of extra(optimum_trial, fold) for every fold exactly once, then times 1/folds once; m_wlearners = cleared + exactly one clone of every learner of every fold; '
                     'after merging every learner scaled by 1/folds exactly once; the final statistics stored by fit_result.store are evaluated on predictions of the FINAL model and selected by the samples given to fit(), stored once',
                     'gboost::mean_error / mean_loss: row 0 resp. 1, every listed sample exactly once in list order from 0.0, divided by max(#samples, 1)',
                     'ml::result_t::store(values, extra) / stats(value): error row -> m_optims row 0, loss row -> row 1; errors read row 0, losses row 1',
                     'weak learner do_predict (stump, tables, affine, hinge, dtree; contracts of specs/C10 run here by reference): the selected table is ADDED to the outputs row of the sample exactly once, no other row is written -- so the model prediction is bias plus the sum of the learners\' predictions',
+                    'LINEAR MODELS (protocol, numerics erased, every real tensor carries ghost provenance tags; linear.h): '
+                    '::fit of src/linear.cpp: one iterator over the given samples with the configured scaling, the objective made over THAT iterator with the given hyper-parameters, exactly one minimisation started from the x0 made '
+                    'for this objective from the given `extra`; bias and weights are extracted from the solution of that minimisation (each by its own accessor) and up-scaled exactly once, in place, with the flatten / targets '
+                    'statistics (in this order) and the scaling of the iterator the objective was fitted over; the returned result holds them as bias resp. weights (real constructor: 3 statistics slots, written inside)',
+                    'linear::evaluate (+ its chunk lambda, ghost position): the result is (2, #samples); every position is predicted exactly once with the GIVEN weights / bias from the UNSCALED inputs of the chunk that holds it, '
+                    'then the error goes to row 0 and the loss value to row 1, each exactly once, computed from that chunk\'s targets and these predictions (never from stale outputs)',
+                    'tuning callback of linear_t::fit (per (trial, fold) task): exactly one model is fitted, on the fold\'s TRAINING samples with the trial\'s hyper-parameters; the first returned statistics are those of THAT model on the '
+                    'training samples, the second those of THAT model on the VALIDATION samples, the third component is that model',
+                    'linear_t::fit: tuning runs on the samples given to fit(); exactly one refit after it, with params(optimum_trial()) (inside its precondition) on ALL given samples; m_weights / m_bias are the up-scaled weights / '
+                    'bias of that refit; the final statistics are evaluated with exactly the stored weights / bias on the samples given to fit() and stored exactly once together with the refit result',
                     'try_merge step of wlearner::merge (sum preservation): do_try_merge adds the other tables exactly when feature and table dimensions agree, else changes nothing; '
                     'table_wlearner_t / affine_wlearner_t::try_merge attempt it only with a learner of the same kind, its feature and its tables, and for look-up tables only with equal label hashes AND equal hash -> table mapping'],
         'not_decided': ['statistics equal those recomputed from scratch by predicting (numeric equality through loss/predict)',
-                        'the linear-model side of the statement (linear_t::fit, src/linear/util.cpp)',
-                        'history lemma (induction over the history from the transition contract) is not machine-checked; the native replay enumerates histories up to length 4 instead'],
+                        'linear models: linear_t::make_x0 (warm start: numerics), the four make_function overrides (ordinary / lasso / ridge / elastic net) and linear::predict are used through assumed contracts; '
+                        'linear_t::do_predict (the stored model is what predict() uses) is not under contract; ml::tune is used through the clauses C13 proves (the callback runs once per (trial, fold) on that fold\'s split '
+                        'and its three results are stored under (trial, fold)): the composition callback-contract + C13 is by reading, not machine-checked'],
         'assumptions': ['gboost::mean_error is a deterministic function of (errors, samples) (assumed contract)',
                         'gboost parameters inside their registered domains: 10 <= max_rounds <= 10^6, 1 <= patience <= 1000 (gboost_model_t constructor; C19)',
+                        'history lemma: 1 <= patience <= 2^62 and at most 2^62 observations (so that round + patience does not wrap in size_t); the initial state of the monitor counts as an accepted improvement at round 0 '
+                        '(a first observation that does not improve on +max -- NaN, +inf, DBL_MAX -- does not count as a round without improvement); mean errors are arbitrary doubles per observation (NaN included); '
+                        'double subtraction uninterpreted (the statement holds for every interpretation of `value - epsilon`)',
                         'erased numerics of ::fit / gboost_model_t::fit (datasets, iterators, samplers, loss, solver, weak learners, outputs, gradients, clusters) do not touch the modelled objects; '
                         'gboost::evaluate overwrites `values` only; solver_t::minimize returns an arbitrary state; learner_t::fit_dataset touches the learner_t base only',
                         'wlearner::merge never increases the number of learners and keeps an empty list empty (C10); wlearner_t::clone copies the learner',
@@ -318,6 +368,12 @@ def build(tier):
                         'tensor contents are ghost identities in the try_merge targets: operator== on tensors / dims is equality of identities; m_tables.vector() += t adds t coefficient-wise (Eigen); the sum of two tables over the same hashes and mapping is the table of the sum of the functions',
                         'std::for_each / std::accumulate apply the operation once to every element of [first, last) in order; tensor_t::indexed(indices, out) gathers out(i) = self(indices(i))',
                         'every sample listed in the index lists handed to mean_error / mean_loss is a column of errors_losses (C12: splits of arange(0, samples)); index lists hold at most 2^31 - 1 samples',
+                        'linear models (assumed contracts of the stubs in linear.h): flatten_iterator_t{dataset, samples} iterates over `samples`; scaling(x) / scaling() are setter / getter; flatten_stats() / targets_stats() are the '
+                        'statistics of that iterator; flatten_iterator_t::loop calls the callback once per chunk, the chunks tile [0, #samples) and carry the inputs / targets of exactly that chunk (C09), serialised; '
+                        'linear_t::make_function(iterator, loss, params) is the objective over the iterator\'s samples with these hyper-parameters; make_x0(function, extra) depends on (function, extra) only; solver_t::minimize returns a state '
+                        'of the objective it was given; function_t::bias / weights extract the two parts of a solution; ::upscale rewrites (weights, bias) in place (C14: the affine map it computes); linear::predict writes one output row per '
+                        'input row; loss_t::error / value write one destination element per (target row, output row); ml::tune returns trials() >= 1, 0 <= optimum_trial() < trials() (C13); params(trial) is row `trial` of the parameter table; '
+                        'lists of at most 10^9 samples; learner_t::fit_dataset touches the learner_t base only; dropped statements: iterator.batch / cache_flatten / cache_targets, fit_params.log, loggers',
                         'a fold model holds at most 10^6 learners (gboost::max_rounds domain); m_optims of ml::result_t is (2, 12) (its constructor, specs/C13/result_ctor.h); store(values, ..) is given a (2, n) tensor (::selected, proved here)'],
         'trusted': [],
     }
@@ -334,7 +390,7 @@ def replay(rp):
     from astload import REPO
     out = {'reproduced': False, 'runs': []}
     tgt = rp.get('target', '')
-    if 'early_stopping' not in tgt:
+    if 'early_stopping' not in tgt and 'monitor_history' not in tgt:
         out['note'] = f'no native replay for target {tgt}: protocol-level counterexample (ghost identities / counters)'
         return out
     srcs = [os.path.join(REPO, 'src/gboost/early_stopping.cpp'), os.path.join(REPO, 'src/gboost/util.cpp')]
